@@ -66,7 +66,16 @@ func near(a, b float64) bool {
 
 // trainReplay executes the protocol path on a real FC layer / activation / MSE / SGD and compares the
 // parameters after the last action. Returns (violation detail, matched only the recorded deviation).
-func trainReplay(b *trainBeh) (string, bool) {
+func trainReplay(b *trainBeh) (d string, known bool) {
+	d = run.Guard(func() string {
+		var dd string
+		dd, known = trainReplay0(b)
+		return dd
+	})
+	return d, known
+}
+
+func trainReplay0(b *trainBeh) (string, bool) {
 	fc, err := layers.NewFC(&layers.FCConfig{Inputs: b.Cfg.Feat, Outputs: 1})
 	if err != nil {
 		return "HARNESS: " + err.Error(), false
@@ -169,7 +178,16 @@ func trainReplay(b *trainBeh) (string, bool) {
 
 // trajectory runs K real training steps of the model of case cs (one or several FC layers with activations and a
 // loss) and checks every step against the symbolic one-step map. Returns (violation, known finding witnessed, steps).
-func trajectory(cs *sym.Case, rng *rand.Rand, K int, lr float64) (string, bool, int) {
+func trajectory(cs *sym.Case, rng *rand.Rand, K int, lr float64) (d string, known bool, steps int) {
+	d = run.Guard(func() string {
+		var dd string
+		dd, known, steps = trajectory0(cs, rng, K, lr)
+		return dd
+	})
+	return d, known, steps
+}
+
+func trajectory0(cs *sym.Case, rng *rand.Rand, K int, lr float64) (string, bool, int) {
 	env := sym.Assign(cs, rng, 0)
 	// one persistent layer object per fc instruction; its parameters live behind the Weights() pointers
 	type param struct {
